@@ -180,6 +180,8 @@ def random_sched(seed, tier):
             if rnd.random() < 0.4:
                 pools_decl.append(("q", rnd.randint(0, 2)))
         g = random_graph(rnd, n, pools_decl)
+        if rnd.random() < 0.4:
+            spell_paths(g, rnd)
         allouts = [o for s in g["steps"] for o in s["outs"]]
         if rnd.random() < 0.3:
             g["defaults"] = rnd.sample(allouts, rnd.randint(1, 2))
@@ -212,8 +214,19 @@ def random_sched(seed, tier):
             pol = {"kind": "all"}
         else:
             pol = {"kind": "prio", "order": order}
-        ops.append(invoke(targets, j=j, k=k, outcomes=outcomes, policy=pol))
-        ops.append(invoke(targets, j=j, k=0, policy={"kind": "prio", "order": order}))
+        def spelled(inv):
+            # the same files, spelled differently on the command line
+            argv = inv["argv"]
+            nt = len(inv["targets"])
+            if nt:
+                sp = []
+                for t in inv["targets"]:
+                    x = rnd.choice(SPELLINGS)(t) if rnd.random() < 0.5 else t
+                    add_spell(g, x, t); sp.append(x)
+                inv["argv"] = argv[:len(argv) - nt] + sp
+            return inv
+        ops.append(spelled(invoke(targets, j=j, k=k, outcomes=outcomes, policy=pol)))
+        ops.append(spelled(invoke(targets, j=j, k=0, policy={"kind": "prio", "order": order})))
         ops.append(invoke(targets, j=j, k=0))
         scns.append(scenario("rnd-%d" % idx, ops, fam="sched", max_orders=24))
     return scns
